@@ -33,7 +33,7 @@ Lemma req_body_eff s1 q script s3 rc st0 sr fin cks :
   Inv noex s1 -> GR s1 ->
   (forall k, q_cookie q = CKey k ->
      (forall dd, ~ In (dd, k) (pending s1)) /\ (view s1 k = None \/ exists d, view s1 k = Some (None, d))) ->
-  (forall n, q_cookie q <> COther n) -> forallb nogetdel script = true ->
+  (forall n, q_cookie q <> COther n) ->
   req_body s1 q script = (s3, rc, st0, sr, fin, cks) ->
   Inv noex s3 /\ GR s3 /\ (supply s1 <= supply s3)%N /\
   exists U,
@@ -44,7 +44,7 @@ Lemma req_body_eff s1 q script s3 rc st0 sr fin cks :
     | None => body_none s3 q U cks
     end.
 Proof.
-  intros HI HG Hjar Hno Hscr. unfold req_body, HistInv3.req_body.
+  intros HI HG Hjar Hno. unfold req_body, HistInv3.req_body.
   pose proof (start_eff s1 q HI HG Hjar) as HS.
   destruct (start s1 q) as [[s2 res] cks0]. unfold start_post in HS. cbn [fst snd] in HS.
   destruct HS as (HI2 & HG2 & Hc2 & Hu2 & Hv2 & Hp2 & Hres).
@@ -60,7 +60,7 @@ Proof.
     assert (HD' : hand s2' o id d0) by (apply hand_fire_due; assumption).
     destruct (run_script s2' o (had_cookie q) script) as [[s3' sr'] cks'] eqn:Hr.
     intros [= <- <- <- <- <- <-].
-    destruct (run_script_eff script s2' o id d0 _ s3' sr' cks' HI2' HG2' HD' Hscr Hr)
+    destruct (run_script_eff script s2' o id d0 _ s3' sr' cks' HI2' HG2' HD' Hr)
       as (HI3 & HG3 & Hc3 & Hu3 & gfin & U & Hgs & Hv3 & Hp3 & Hfin).
     split; [exact HI3|]. split; [exact HG3|]. split; [lia|]. exists U.
     assert (Hidk : forall k, CKey k <> q_cookie q -> key_drawn s1 k -> k <> id).
